@@ -7,7 +7,7 @@
  *      one output line per history:
  *        schedule/set -> return value; advance -> cur_bucket afterwards; execute -> ret nlog (cb p1 p2 p3){nlog};
  *        reset -> number of items stored afterwards; then 7777 cur { num_items (cb p1 p2 p3 prio)* }{NUM_FRAMES}
- *      -999 malformed line; -998 = the bucket to execute holds a NULL callback (the call would jump to 0: not executed, history ends);
+ *      -999 malformed line; -998 = tdma_sched_execute reached a stored NULL callback (the call would jump to 0: a stand-in records it, history ends);
  *      -997 = set array without SCHED_END_SET (the loop would read past the array: not executed, history ends).
  * callback ids: 0 = NULL (SCHED_END_FRAME), 1 = &tdma_end_set, 2..11 loggers returning 0, 12 logger returning p1,
  *               13 logger returning -1, 14 logger returning -(p1+1). */
@@ -46,6 +46,9 @@ static int logit(int id, uint8_t p1, uint8_t p2, uint16_t p3)
 #define LOGGER(n, rc) static int cb_##n(uint8_t p1, uint8_t p2, uint16_t p3) { logit(n, p1, p2, p3); return rc; }
 LOGGER(2, 0) LOGGER(3, 0) LOGGER(4, 0) LOGGER(5, 0) LOGGER(6, 0) LOGGER(7, 0) LOGGER(8, 0) LOGGER(9, 0) LOGGER(10, 0) LOGGER(11, 0)
 LOGGER(12, p1) LOGGER(13, -1) LOGGER(14, -((int)p1 + 1))
+
+static int null_called;
+static int cb_null_trap(uint8_t p1, uint8_t p2, uint16_t p3) { null_called = 1; return -12345; }
 
 static tdma_sched_cb *cbtab[NCBK] = { NULL, &tdma_end_set, cb_2, cb_3, cb_4, cb_5, cb_6, cb_7, cb_8, cb_9, cb_10, cb_11, cb_12, cb_13, cb_14 };
 
@@ -143,9 +146,13 @@ static void run_line(int n)
 		} else if (c == 4) {
 			struct tdma_sched_bucket *bk = &l1s.tdma_sched.bucket[l1s.tdma_sched.cur_bucket];
 			int rc;
-			for (k = 0; k < bk->num_items; k++) if (bk->item[k].cb == NULL) { printf("-998\n"); return; }
-			nlg = 0;
+			/* a stored NULL callback would be called through: stand-in that records the fact and stops the loop
+			 * (negative result); pointers are put back afterwards (a failing callback may end the loop earlier) */
+			for (k = 0; k < bk->num_items && k < (int)ARRAY_SIZE(bk->item); k++) if (bk->item[k].cb == NULL) bk->item[k].cb = cb_null_trap;
+			nlg = 0; null_called = 0;
 			rc = tdma_sched_execute();
+			for (k = 0; k < (int)ARRAY_SIZE(bk->item); k++) if (bk->item[k].cb == cb_null_trap) bk->item[k].cb = NULL;
+			if (null_called) { printf("-998\n"); return; }
 			printf("%d %d ", rc, nlg);
 			for (k = 0; k < nlg && k < MAXLOG; k++) printf("%ld %ld %ld %ld ", lg[k][0], lg[k][1], lg[k][2], lg[k][3]);
 			i++;
